@@ -163,14 +163,14 @@ func judgeBody(d Data) engine.Outcome {
 		kind = "dynamic"
 	}
 	if !sameOutcome(o0, o1) {
-		return engine.Fail("c07.body."+bc.Syntax+"."+kind+".pruned-scope-differs", "spec %s, body:\n%s\n%s reported roots %v\nfull scope:   %s\npruned scope: %s", bc.Spec, bc.Text, how, names, o0, o1)
+		return engine.Fail("c07.body."+kind+"."+bc.Spec+".pruned-scope-differs", "spec %s, body:\n%s\n%s reported roots %v\nfull scope:   %s\npruned scope: %s", bc.Spec, bc.Text, how, names, o0, o1)
 	}
 	if !sameOutcome(o0, o2) {
-		return engine.Fail("c07.body."+bc.Syntax+"."+kind+".unreported-variable-matters", "spec %s, body:\n%s\n%s reported roots %v\nfull scope: %s\nunreported names changed: %s", bc.Spec, bc.Text, how, names, o0, o2)
+		return engine.Fail("c07.body."+kind+"."+bc.Spec+".unreported-variable-matters", "spec %s, body:\n%s\n%s reported roots %v\nfull scope: %s\nunreported names changed: %s", bc.Spec, bc.Text, how, names, o0, o2)
 	}
 	for _, n := range bound {
 		if reported[n] {
-			return engine.Fail("c07.body."+bc.Syntax+"."+kind+".bound-name-reported", "spec %s, body:\n%s\n%s reported roots %v include the iterator name %q", bc.Spec, bc.Text, how, names, n)
+			return engine.Fail("c07.body."+kind+"."+bc.Spec+".bound-name-reported", "spec %s, body:\n%s\n%s reported roots %v include the iterator name %q", bc.Spec, bc.Text, how, names, n)
 		}
 	}
 	counters.Add("evaluations_body", 3)
